@@ -59,6 +59,20 @@ class ClassInfo:
                 self.aliases[s.targets[0].id] = s.value
 
 
+def _is_constant_display(e):
+    """a tuple / list / set / frozenset display whose leaves are literals or dotted names (enum members), or such a leaf"""
+    if isinstance(e, ast.Constant):
+        return True
+    if isinstance(e, ast.Attribute):
+        return isinstance(e.value, ast.Name)
+    if isinstance(e, (ast.Tuple, ast.List, ast.Set)):
+        return all(_is_constant_display(x) for x in e.elts)
+    if isinstance(e, ast.Call) and isinstance(e.func, ast.Name) and e.func.id in ("frozenset", "tuple", "set") and len(e.args) == 1 \
+            and not e.keywords:
+        return _is_constant_display(e.args[0])
+    return False
+
+
 class Program:
     """Class table + functions of a set of modules."""
 
@@ -66,6 +80,7 @@ class Program:
         self.mods = list(mods)
         self.classes = {}
         self.functions = {}
+        self.constants = {}      # NAME = <display of constants / enum members> at module level (assigned once)
         for m in self.mods:
             tree = module_ast(m)
             self._collect(m, tree.body)
@@ -82,6 +97,11 @@ class Program:
                 self.functions.setdefault(s.name, s)
             elif isinstance(s, ast.Try):
                 self._collect(m, s.body)
+            elif (isinstance(s, ast.Assign) and len(s.targets) == 1 and isinstance(s.targets[0], ast.Name)
+                  and _is_constant_display(s.value)):
+                nm = s.targets[0].id
+                # a name bound twice at module level is not a constant
+                self.constants[nm] = None if nm in self.constants else s.value
 
     def mro(self, cname):
         """C3 linearisation over the classes known to the program (unknown bases are leaves)."""
